@@ -144,8 +144,14 @@ def check(args):
     samples = []
     t1 = time.time()
 
-    def on_result(idx, status, out):
+    retry = []
+
+    def on_result(idx, status, out, final=False):
         if status != "ok":
+            if status == "timeout" and not final and len(retry) < 16:
+                # the wall clock is not simulated: a run killed by it is repeated alone before anything is said
+                retry.append(idx)
+                return
             report.harness_errors.append(f"seed {seeds[idx]}: {status}: {str(out)[-800:]}")
             return
         agg["runs"] += 1
@@ -173,6 +179,9 @@ def check(args):
             samples.append({"seed": out["seed"], "schedule": out["schedule"], "steps": out["steps"], "digest": out["digest"]})
 
     core.run_batch(_seed_task, seeds, timeout=60.0, deadline=deadline, on_result=on_result)
+    for idx in list(retry):
+        st, out = core.run_in_child(_seed_task, (seeds[idx],), timeout=300.0)
+        on_result(idx, st, out, final=True)
     t_explore = time.time() - t1
     # ---- triage: minimise and confirm one example per signature
     listed = {sig: so for sig, so in first_by_sig.items() if report.match_known(sig) is not None}
